@@ -156,3 +156,37 @@ func withExtProfiles(fn func()) {
 	}
 	fn()
 }
+
+// ---- a profile whose claims type carries its JSON profile member under its
+// own name ("x-profile", identified by the field name Profile, no CBOR tag) ----
+
+const OwnTagName = "http://example.com/verif/own-tag"
+
+type OwnTagClaims struct {
+	Profile string `json:"x-profile"`
+	psatoken.P2Claims
+}
+
+func (o *OwnTagClaims) Validate() error { return psatoken.ValidateClaims(o) }
+
+func (o OwnTagClaims) MarshalCBOR() ([]byte, error)     { return encoding.SerializeStructToCBOR(hem, &o) }
+func (o *OwnTagClaims) UnmarshalCBOR(data []byte) error { return encoding.PopulateStructFromCBOR(hdm, data, o) }
+func (o OwnTagClaims) MarshalJSON() ([]byte, error)     { return encoding.SerializeStructToJSON(&o) }
+func (o *OwnTagClaims) UnmarshalJSON(data []byte) error { return encoding.PopulateStructFromJSON(data, o) }
+
+func newOwnTagClaims() psatoken.IClaims {
+	p := eat.Profile{}
+	if err := p.Set(OwnTagName); err != nil {
+		panic(err)
+	}
+	return &OwnTagClaims{Profile: OwnTagName, P2Claims: psatoken.P2Claims{
+		Profile:          &p,
+		SwComponents:     &psatoken.SwComponents[*psatoken.SwComponent]{},
+		CanonicalProfile: OwnTagName,
+	}}
+}
+
+type ownTagProfile struct{}
+
+func (ownTagProfile) GetName() string             { return OwnTagName }
+func (ownTagProfile) GetClaims() psatoken.IClaims { return newOwnTagClaims() }
